@@ -62,11 +62,12 @@ impl Dimensionality {
         self
     }
 
-    pub fn pow(mut self, exp: i64) -> Dimensionality {
+    /// None if a power doesn't fit.
+    pub fn checked_pow(mut self, exp: i64) -> Option<Dimensionality> {
         for (_, power) in self.dims.iter_mut() {
-            *power *= exp;
+            *power = power.checked_mul(exp)?;
         }
-        self
+        Some(self)
     }
 }
 
